@@ -2,20 +2,8 @@
 package main
 
 import (
-	"os"
-	"runtime/pprof"
-
 	_ "verifharness/engines/client"
 	"verifharness/internal/reg"
 )
 
-func main() {
-	if p := os.Getenv("DEV_CPUPROFILE"); p != "" {
-		f, _ := os.Create(p)
-		_ = pprof.StartCPUProfile(f)
-		defer pprof.StopCPUProfile()
-		regMainNoExit()
-		return
-	}
-	reg.Main()
-}
+func main() { reg.Main() }
